@@ -213,12 +213,21 @@ def poolFree (p : MPool.MP) (stackSite : Site) (obj : Nat) (w : World) : MPool.M
     | (none, w1) => (MPool.resetStats p, release w1 obj)
   else (MPool.resetStats p, release w obj)
 
-/-- `mpool_atexit(M)`: every cached object and the stack array are freed -/
-def poolAtexit (p : MPool.MP) (w : World) (sites : List Site) : MPool.MP × World :=
-  let gone := w.cache.filter (fun b => sites.contains b.site)
-  ({ p with stack := [], stacklen := 0 },
-   { w with cache := w.cache.filter (fun b => !sites.contains b.site)
-            m := gone.foldl (fun m _ => m.free false) w.m })
+/-- `free()` of a block that is parked in a pool -/
+def dropCached (w : World) (id : Nat) : World :=
+  match findId w.cache id with
+  | some _ => { w with m := w.m.free false, cache := eraseId w.cache id }
+  | none => { w with bad := w.bad + 1 }
+
+/-- `mpool_atexit(M)`: every object on the stack is freed, then the stack array if it was allocated -/
+def poolAtexit (p : MPool.MP) (stackSite : Site) (w : World) : MPool.MP × World :=
+  let w1 := p.stack.foldl dropCached w
+  let w2 := if p.dyn then
+      match w1.cache.find? (·.site == stackSite) with
+      | some _ => { w1 with m := w1.m.free false, cache := eraseSite w1.cache stackSite }
+      | none => { w1 with bad := w1.bad + 1 }
+    else w1
+  ({ p with stack := [], stacklen := 0 }, w2)
 
 /-! ## network_read.c / network_write.c / network_accept.c -/
 
@@ -601,10 +610,10 @@ def httpRequestCancel (w : World) (h : Nat) : Option World :=
 
 /-- the two cookie pools' `atexit` handlers (the event layer's own are `EvReg.shutdown`) -/
 def atexitPools (w : World) : World :=
-  match poolAtexit w.rdPool w [.rdCookie, .rdStack] with
+  match poolAtexit w.rdPool .rdStack w with
   | (p1, w1) =>
     let w1 := { w1 with rdPool := p1 }
-    match poolAtexit w1.wrPool w1 [.wrCookie, .wrStack] with
+    match poolAtexit w1.wrPool .wrStack w1 with
     | (p2, w2) => { w2 with wrPool := p2 }
 
 /-- all exit handlers -/
@@ -612,5 +621,65 @@ def atexitAll (w : World) : World :=
   let w1 := atexitPools w
   match shutdown w1.ev w1.m with
   | (e', m') => setEv w1 e' m'
+
+/-! ## operation sequences -/
+
+inductive Op where
+  | read (fd : Nat) | readCancel (c : Nat)
+  | write (fd : Nat) | writeCancel (c : Nat)
+  | accept (fd : Nat) | acceptCancel (c : Nat)
+  | connect (addrs : List AddrOutcome) (timeo : Option Int) (s : Nat) | connectCancel (c : Nat)
+  | nbrInit (fd : Nat) | nbrWait (r len : Nat) | nbrCancel (r : Nat) | nbrFree (r : Nat)
+  | nbwInit (fd : Nat) | nbwReserve (x len : Nat) | nbwConsume (x len : Nat) | nbwWrite (x len : Nat) | nbwFree (x : Nat)
+  | http (addrs : List AddrOutcome) (headlen s : Nat) | httpCancel (h : Nat)
+  deriving Repr
+
+/-- is this read cookie the one a buffered reader is waiting on (then only the reader may cancel it)? -/
+def readOwned (w : World) (c : Nat) : Bool := w.readers.any (·.readCookie == some c)
+def writeOwned (w : World) (c : Nat) : Bool := w.writers.any (fun x => (x.curr.map (·.2)) == some c)
+def connOwned (w : World) (c : Nat) : Bool := w.https.any (·.conn == c)
+
+/-- a call outside the usage contract (`none`) is not made -/
+def orSame (w : World) : Option World → World
+  | some w' => w'
+  | none => w
+
+/-- One call.  A call outside the usage contract (a cookie that is not outstanding or belongs to another
+object, a busy reader freed, a reserve while reserved, …) is not made: the state is left as it is. -/
+def step (w : World) : Op → World
+  | .read fd => (networkRead w fd).2
+  | .readCancel c => if readOwned w c then w else orSame w (networkReadCancel w c)
+  | .write fd => (networkWrite w fd).2
+  | .writeCancel c => if writeOwned w c then w else orSame w (networkWriteCancel w c)
+  | .accept fd => (networkAccept w fd).2
+  | .acceptCancel c => orSame w (networkAcceptCancel w c)
+  | .connect addrs timeo s => (networkConnect w addrs timeo s).2
+  | .connectCancel c => if connOwned w c then w else orSame w (networkConnectCancel w c)
+  | .nbrInit fd => (netbufReadInit w fd).2
+  | .nbrWait r len => (netbufReadWait w r len).2
+  | .nbrCancel r => orSame w (netbufReadWaitCancel w r)
+  | .nbrFree r => orSame w (netbufReadFree w r)
+  | .nbwInit fd => (netbufWriteInit w fd).2
+  | .nbwReserve x len => (netbufWriteReserve w x len).2
+  | .nbwConsume x len => (netbufWriteConsume w x len).2
+  | .nbwWrite x len => (netbufWriteWrite w x len).2
+  | .nbwFree x => orSame w (netbufWriteFree w x)
+  | .http addrs headlen s => (httpRequest w addrs headlen s).2
+  | .httpCancel h => orSame w (httpRequestCancel w h)
+
+def run (w : World) (ops : List Op) : World := ops.foldl step w
+
+/-- every object released with its normal free / cancel call: HTTP requests, then the connection attempts,
+accepts, buffered readers (cancel the wait, free) and writers, and the reads and writes that are left -/
+def teardownOps (w : World) : List Op :=
+  w.https.map (.httpCancel ·.cookie) ++
+  (w.conns.filter (fun k => !connOwned w k.cookie)).map (.connectCancel ·.cookie) ++
+  w.accepts.map (.acceptCancel ·.cookie) ++
+  w.readers.flatMap (fun r => [.nbrCancel r.id, .nbrFree r.id]) ++
+  w.writers.map (.nbwFree ·.id) ++
+  (w.reads.filter (fun r => !readOwned w r.cookie)).map (.readCancel ·.cookie) ++
+  (w.writes.filter (fun r => !writeOwned w r.cookie)).map (.writeCancel ·.cookie)
+
+def teardown (w : World) : World := run w (teardownOps w)
 
 end Percival.Model.AllocFail
